@@ -22,10 +22,14 @@ type Deriv struct {
 	ElemsOK bool           // for Fresh: Elems is complete
 	Unknown string         // non-empty: derivation lost, with the reason
 	Strict  bool           // at least one strict projection between Root and the value
+	Source  *ssa.Call      // the value is (a projection of) the result of this call to an alias source (e.g. bkl.get)
+	ExtOut  bool           // Fresh: filled in by an external function through an out-parameter or returned by one
 }
 
 func (d Deriv) String() string {
 	switch {
+	case d.Source != nil:
+		return "aliasOf(" + d.Source.Common().StaticCallee().Name() + ")"
 	case d.Unknown != "":
 		return "unknown(" + d.Unknown + ")"
 	case d.Leaf:
@@ -70,6 +74,10 @@ type deriver struct {
 	scc func(*ssa.Function) bool
 	// calls currently being summarised (innermost last): resolves applicator parameters
 	ctx []*ssa.CallCommon
+	// functions whose result is an alias into live data and must be tracked as a Source
+	aliasSources map[string]bool
+	// follow every struct field (ownership analyses), not only the acyclic ones (termination)
+	allFields bool
 }
 
 func (p *Prog) Derive(v ssa.Value, inSCC func(*ssa.Function) bool) []Deriv {
@@ -102,7 +110,7 @@ func strictAll(ds []Deriv) []Deriv {
 			out = append(out, d.Elems...)
 			continue
 		}
-		if d.Root != nil {
+		if d.Root != nil || d.Source != nil {
 			d.Strict = true
 		}
 		out = append(out, d)
@@ -154,7 +162,7 @@ func subst(d Deriv, actual func(*ssa.Parameter) []Deriv) []Deriv {
 		}
 		return out
 	case d.Fresh:
-		nd := Deriv{Fresh: true, ElemsOK: d.ElemsOK}
+		nd := Deriv{Fresh: true, ElemsOK: d.ElemsOK, ExtOut: d.ExtOut}
 		for _, e := range d.Elems {
 			nd.Elems = append(nd.Elems, subst(e, actual)...)
 		}
@@ -365,6 +373,9 @@ func (d *deriver) load(addr ssa.Value) []Deriv {
 		}
 		stores := cellStores(al)
 		if len(stores) == 0 {
+			if escapesToCall(al) {
+				return []Deriv{{Fresh: true, ExtOut: true}} // filled in by a callee through its address
+			}
 			return []Deriv{{Leaf: true}} // zero value
 		}
 		var out []Deriv
@@ -379,7 +390,7 @@ func (d *deriver) load(addr ssa.Value) []Deriv {
 		return strictAll(d.derive(a.X))
 	case *ssa.FieldAddr:
 		key := fieldName(a)
-		if _, ok := acyclicFields[key]; ok {
+		if _, ok := acyclicFields[key]; ok || d.allFields {
 			return strictAll(d.derive(a.X))
 		}
 		return unknownD("field %s is not an acyclic projection", key)
@@ -543,7 +554,14 @@ func (d *deriver) callResult(c *ssa.Call, idx int) []Deriv {
 		return []Deriv{{Fresh: true, Elems: el, ElemsOK: ok}}
 	}
 	if !d.p.InRepo(callee) || callee.Blocks == nil {
-		return unknownD("result of external %s", full)
+		return []Deriv{{Fresh: true, ExtOut: true, Unknown: ""}}
+	}
+	if d.aliasSources[d.p.FuncName(callee)] {
+		return []Deriv{{Source: c}}
+	}
+	if d.scc != nil && d.p.FuncName(callee) == "bkl.deepClone" && idx == 0 {
+		// termination measure only: a deep copy has the height of its argument (contract: rule C01.clone)
+		return d.derive(com.Args[0])
 	}
 	if d.scc != nil && d.scc(callee) {
 		return unknownD("result of recursive call to %s", d.p.FuncName(callee))
@@ -817,4 +835,43 @@ func retValue(ret *ssa.Return, i int) ssa.Value {
 		return stores[0]
 	}
 	return v
+}
+
+// escapesToCall: the cell's address is passed to a call (out-parameter).
+func escapesToCall(al *ssa.Alloc) bool {
+	refs := al.Referrers()
+	if refs == nil {
+		return false
+	}
+	for _, ref := range *refs {
+		switch r := ref.(type) {
+		case ssa.CallInstruction:
+			for _, a := range r.Common().Args {
+				if a == ssa.Value(al) {
+					return true
+				}
+			}
+		case *ssa.MakeInterface:
+			if r.Referrers() != nil {
+				for _, r2 := range *r.Referrers() {
+					if _, ok := r2.(ssa.CallInstruction); ok {
+						return true
+					}
+				}
+			}
+		}
+	}
+	return false
+}
+
+// DeriveWithSources is Derive with the given functions treated as alias sources.
+func (p *Prog) DeriveWithSources(v ssa.Value, sources map[string]bool) []Deriv {
+	d := &deriver{p: p, g: p.CG(), seen: map[ssa.Value]bool{}, aliasSources: sources, allFields: true}
+	return dedupDerivs(d.derive(v))
+}
+
+// DeriveAll follows every struct field (used by the ownership engine).
+func (p *Prog) DeriveAll(v ssa.Value) []Deriv {
+	d := &deriver{p: p, g: p.CG(), seen: map[ssa.Value]bool{}, allFields: true}
+	return dedupDerivs(d.derive(v))
 }
